@@ -50,7 +50,7 @@ Definition le (d : list Z) (lo n : Z) : Z := from_le (bslice d lo (lo + n)).
 
 (* ------------------------------------------------------------------ file headers *)
 (* b"TurDB Rust v1\0\0\0", b"TurDB Table\0\0\0\0\0", b"TurDB Index\0\0\0\0\0", b"TurDB HNSW\0\0\0\0\0\0" *)
-Definition META_MAGIC : list Z := [84;117;114;68;66;32;82;117;115;116;32;118;50;0;0;0].
+Definition META_MAGIC : list Z := [84;117;114;68;66;32;82;117;115;116;32;118;49;0;0;0].
 Definition TABLE_MAGIC : list Z := [84;117;114;68;66;32;84;97;98;108;101;0;0;0;0;0].
 Definition INDEX_MAGIC : list Z := [84;117;114;68;66;32;73;110;100;101;120;0;0;0;0;0].
 Definition HNSW_MAGIC : list Z := [84;117;114;68;66;32;72;78;83;87;0;0;0;0;0;0].
